@@ -406,7 +406,8 @@ def _increment_nodes(g, name, fi, assigns):
                 f = a.func
                 if isinstance(f, ast.Attribute) and f.attr in ('increment_state_version',
                                                                'increment_descriptor_version') and \
-                        isinstance(f.value, ast.Name) and f.value.id == name:
+                        isinstance(f.value, ast.Name) and f.value.id == name and _copy_of_resident(name, assigns):
+                    # x.increment_*() continues the MDIB counter only if x is a copy of the MDIB object
                     out.append(n)
                 if call_name(a) == 'set_version' and a.args and isinstance(a.args[0], ast.Name) and \
                         a.args[0].id == name:
@@ -422,6 +423,22 @@ def _increment_nodes(g, name, fi, assigns):
                             and v.right.value == 1 and isinstance(v.left, ast.Attribute) and v.left.attr == t.attr:
                         out.append(n)
     return out
+
+
+def _copy_of_resident(name, assigns):
+    """Every binding of `name` is `<resident>.mk_copy()` / an item already versioned in this transaction."""
+    vals = assigns.get(name, [])
+    if not vals:
+        return False
+    for v in vals:
+        if isinstance(v, ast.Call) and call_name(v) == 'mk_copy' and isinstance(v.func, ast.Attribute):
+            continue
+        if isinstance(v, ast.Attribute) and v.attr == 'new':
+            continue  # object of an item that is already part of the transaction
+        if isinstance(v, ast.Call) and call_name(v) in ('get_context_state', 'get_state', 'get_descriptor'):
+            continue
+        return False
+    return True
 
 
 def _save_key(fi):
